@@ -2,6 +2,10 @@ use crate::prng::Rng;
 use std::collections::BTreeMap;
 
 pub mod dos;
+pub mod text;
+pub mod cp437_table;
+pub mod paths;
+pub mod clones;
 pub mod read;
 pub mod write;
 
@@ -43,7 +47,14 @@ pub trait Stream {
 }
 
 pub fn all() -> Vec<Box<dyn Stream>> {
-    vec![Box::new(dos::Dos), Box::new(read::ReadStream), Box::new(write::WriteStream)]
+    vec![
+        Box::new(dos::Dos),
+        Box::new(read::ReadStream),
+        Box::new(write::WriteStream),
+        Box::new(clones::Clones),
+        Box::new(paths::Paths),
+        Box::new(text::Text),
+    ]
 }
 
 pub fn rng_for(seed: u64, stream: &str, idx: u64) -> Rng {
